@@ -18,6 +18,19 @@ CLAIMED = {
         note=BASE_NOTE + "Modelled, not verified: Go map, os.Environ (cleared by the harness), os.Getpid (oracle value).",
         technique="Coq refinement proof (store model -> abstract map) + differential correspondence model vs interp.ExecEnv",
         design="6 C20"),
+    "C12": dict(
+        text=("Proved for every pattern item list and every subject (induction on the items; key lemmas: monotonicity of the extreme "
+              "remainder in the start position, extreme-start specifications of the greedy/lazy star, the leftmost search and Match's "
+              "shrinking loop): in each of the four modes the model of Match returns exactly the longest/shortest matching prefix/suffix, or "
+              "no match when none exists; several patterns match iff one does; the oracle matcher decides the denotation. The model "
+              "(compile -> regex items + emitted regex text, Go regexp class parser, leftmost-first priorities) is tied to pattern.go by "
+              "comparing the emitted regex source (hook VerifCompile) and Match's answer on all patterns <=3 symbols x subjects <=2 symbols x 4 "
+              "modes (quick; thorough <=4 x <=3) over the property's alphabets plus random longer ones. Not proved: that the pattern-to-items "
+              "parser agrees with POSIX bracket-expression syntax (it is the shared definition of the pattern AST); Go's regexp itself is modelled."),
+        note=BASE_NOTE + "Modelled, not verified: Go regexp (syntax of the emitted subset and leftmost-first semantics), utf8 decoding. "
+             "Outside the modelled subset (skipped): [.x.] / [=x=] inside brackets, brackets that Go closes elsewhere than compile.",
+        technique="Coq proof that priority backtracking yields the extreme affix + differential correspondence (regex text and Match results)",
+        design="6 C12"),
 }
 
 PENDING_REASON = "check under construction in this session; not claimed until its theorems and correspondence run green"
